@@ -70,6 +70,8 @@ vlib.standard_check({
                             "netlist_nodes_modelled": t.get("nodes", 0),
                             "valuations_skipped_executed_index_out_of_range": t.get("oor_skipped", 0),
                             "programs_rejected_by_frontend_and_model": t.get("rejected", 0),
+                            "observations_postprocess_threw": t.get("obs_postprocess_threw", 0),
+                            "observations_postprocess_threw_all_selections_in_range": t.get("obs_postprocess_threw_all_in_range", 0),
                             "statement_histogram": t.get("hist", {})},
     "rule": "programs generated from the seed over the AST of C05/Model.lean (declarations, defaults, assignments to whole signals / slices / bits / "
             "dynamic bits, parts and slices incl. nested selections, operators, IF / ELSE / ELSEIF / two-scope ELSE IF chains that often repeat a condition "
@@ -81,10 +83,11 @@ vlib.standard_check({
                      "the sequential interpreter `run` and the operator semantics shared by `run` and the netlist evaluation (C05/Model.lean)",
                      "harness/c05.cpp (AST interpreter performing the real frontend calls) + Driver/C05.lean line protocol",
                      "gtry::sim::ReferenceSimulator as the observer of the built circuit"],
-    "level_text": "Lean model of ConditionalScope ctor/dtor bookkeeping, Bit/BaseBitVector::assign, BitVectorSlice read-modify-write and Node_Default as written; "
-                  "theorem by two inductions over programs (skipped block = frame, executed block = simulation of the sequential interpreter) for all programs, "
-                  "nesting depths, chain lengths and inputs for which no two-scope ELSE IF reuses the previous condition's node port; for that shape the negation "
-                  "is proved on a concrete witness; model tied to the code by differential execution of generated programs on the real frontend.",
+    "level_text": "Lean model of ConditionalScope ctor/dtor bookkeeping (incl. the s_nextId test of the destructor), Bit/BaseBitVector::assign, BitVectorSlice "
+                  "read-modify-write and Node_Default as written; full-strength theorem C05_sequential by two inductions over programs (skipped block = frame, "
+                  "executed block = simulation of the sequential interpreter) for all programs, nesting depths, chain lengths in both ELSEIF forms and all inputs; "
+                  "model tied to the code by differential execution of generated programs on the real frontend, before and after postprocess(). "
+                  "Exceptions thrown by postprocess() are counted observations (OBS), not verdicts; a value changed by postprocess() is reported.",
     "assumptions": ["C++ control flow around the macros (loops, early exits, exceptions inside a scope), Compound/struct assignment, registers/EnableScope, "
                     "SInt/BVec, signal width growth and reads of never-driven signals (loop semantics) are not modelled",
                     "operators are abstract (same semantics in interpreter and netlist): C03's business",
